@@ -40,6 +40,15 @@ Theorem c10_node_value : forall (K : cring) (d : dist K) fx fz n e s w,
   /\ v_node K d fx fz n e s w = h_node K d fx fz e s w n.
 Proof. intros. split; [apply h_node_is_prob|reflexivity]. Qed.
 
+(* c10_delta_sem [P-forall]: stabilizer tensors (tsr.delta) take the values 0/1 and equal 1 whenever all
+   non-dummy legs carry the same index *)
+Theorem c10_delta_sem : forall (K : cring) dims idx,
+  (delta_val K dims idx = r1 K \/ delta_val K dims idx = r0 K)
+  /\ (length dims = length idx ->
+      (forall j k, j < length dims -> k < length dims -> nth j dims 1 <> 1 -> nth k dims 1 <> 1 -> nth j idx 0 = nth k idx 0) ->
+      delta_val K dims idx = r1 K).
+Proof. intros K dims idx. split; [apply delta_val_spec|apply delta_val_one]. Qed.
+
 (* ---- NOT proved: kept visible ---------------------------------------------------------------- *)
 (* the network of a decoder contracts to the coset probability: [network] stands for the decoder's
    create_tn followed by the exact contraction value of Tensor/Net.v *)
@@ -65,4 +74,4 @@ Example c10_example :
 Proof. cbn. repeat split; try reflexivity; intuition discriminate. Qed.
 
 Print Assumptions c10_enumeration. Print Assumptions c10_coset_well_defined. Print Assumptions c10_choice.
-Print Assumptions c10_node_value.
+Print Assumptions c10_node_value. Print Assumptions c10_delta_sem.
